@@ -347,8 +347,11 @@ func (s *Stream) close() error {
 			}
 			return s.session.wakeUpPeer()
 		}
+		return nil
 	}
-	return nil
+	// the state moved on between the load and the CAS (the peer's close arrived meanwhile: open -> half-closed).
+	// States only move forward, so trying again terminates; giving up here left the stream half-closed for ever.
+	return s.close()
 }
 
 func (s *Stream) clean() {
